@@ -13,6 +13,7 @@ type GenOpts struct {
 	NoSiblingContext bool   // no non-target elements between records (they are legitimately retained)
 	OwnDataOnly      bool   // the schema addresses only the target record's own data
 	Probe            bool   // schemas call the harness custom function verif_probe (needs run.ProbeExtension)
+	NoBadRows        bool   // no malformed rows (old csv): every logical record yields exactly one result of its own
 	NumericFilter    bool   // the FINAL_OUTPUT target filter compares a field with a number (own scenario family: known finding)
 }
 
